@@ -61,8 +61,10 @@ PLANS["C13"] = {
          "params": {"families": ["WassersteinCase"]}},
         {"name": "H-jit-ot", "layer": "H", "mode": "jit", "variant": "ot", "runs": 3000, "workers": 2, "budget_s": 170,
          "params": {"families": ["WassersteinCase"], "cancel": True}},
-        {"name": "H-jit-misc", "layer": "H", "mode": "jit", "variant": "misc", "runs": 3000, "workers": 1, "budget_s": 170,
-         "params": {"families": MISC}},
+        {"name": "H-jit-misc-a", "layer": "H", "mode": "jit", "variant": "misca", "runs": 1500, "workers": 1, "budget_s": 170,
+         "params": {"families": MISC[:4]}},
+        {"name": "H-jit-misc-b", "layer": "H", "mode": "jit", "variant": "miscb", "runs": 1500, "workers": 1, "budget_s": 170,
+         "params": {"families": MISC[4:]}},
         {"name": "H-jit-cooc", "layer": "H", "mode": "jit", "variant": "cooc", "runs": 1500, "workers": 1, "budget_s": 170,
          "params": {"families": ["CoocCase"], "cooc_kinds": ["token", "multiset"]}},
     ],
@@ -74,10 +76,40 @@ PLANS["C13"] = {
          "params": {"families": ["WassersteinCase"], "cancel": True}},
         {"name": "H-jit-ot", "layer": "H", "mode": "jit", "variant": "ot", "runs": 80000, "workers": 2, "budget_s": 2600,
          "params": {"families": ["WassersteinCase"], "cancel": True}},
-        {"name": "H-jit-misc", "layer": "H", "mode": "jit", "variant": "misc", "runs": 60000, "workers": 1, "budget_s": 2600,
-         "params": {"families": MISC, "cancel": True}},
+        {"name": "H-jit-misc-a", "layer": "H", "mode": "jit", "variant": "misca", "runs": 30000, "workers": 1, "budget_s": 2600,
+         "params": {"families": MISC[:4], "cancel": True}},
+        {"name": "H-jit-misc-b", "layer": "H", "mode": "jit", "variant": "miscb", "runs": 30000, "workers": 1, "budget_s": 2600,
+         "params": {"families": MISC[4:], "cancel": True}},
         {"name": "H-jit-cooc", "layer": "H", "mode": "jit", "variant": "cooc", "runs": 30000, "workers": 2, "budget_s": 2600,
          "params": {"families": ["CoocCase"], "cooc_kinds": ["token", "multiset", "timed"], "cancel": True}},
+    ],
+}
+
+ROWWISE_MISC = ["NgramCase", "SkipgramCase", "LZCase", "BPECase", "HistogramCase", "KDECase", "DistributionCase",
+                "InfoWeightCase", "RowDenoiseCase", "CFCCase", "SlidingWindowCase"]
+
+PLANS["C12"] = {
+    "quick": [
+        {"name": "H-interp-all", "layer": "H", "mode": "interp", "runs": 10500, "workers": 7, "budget_s": 170},
+        {"name": "H-interp-ot", "layer": "H", "mode": "interp", "variant": "ot", "runs": 2400, "workers": 4, "budget_s": 170,
+         "params": {"families": ["WassersteinCase"]}},
+        {"name": "H-jit-ot", "layer": "H", "mode": "jit", "variant": "ot", "runs": 48, "workers": 2, "budget_s": 170,
+         "params": {"families": ["WassersteinCase"]}, "env": {"NUMBA_NUM_THREADS": 4}},
+        {"name": "H-jit-misc-a", "layer": "H", "mode": "jit", "variant": "misca", "runs": 700, "workers": 1, "budget_s": 170,
+         "params": {"families": ROWWISE_MISC[:4]}, "env": {"NUMBA_NUM_THREADS": 4}},
+        {"name": "H-jit-misc-b", "layer": "H", "mode": "jit", "variant": "miscb", "runs": 340, "workers": 1, "budget_s": 170,
+         "params": {"families": ROWWISE_MISC[4:]}},
+    ],
+    "thorough": [
+        {"name": "H-interp-all", "layer": "H", "mode": "interp", "runs": 400000, "workers": 7, "budget_s": 2600},
+        {"name": "H-interp-ot", "layer": "H", "mode": "interp", "variant": "ot", "runs": 200000, "workers": 4, "budget_s": 2600,
+         "params": {"families": ["WassersteinCase"]}},
+        {"name": "H-jit-ot", "layer": "H", "mode": "jit", "variant": "ot", "runs": 200000, "workers": 2, "budget_s": 2600,
+         "params": {"families": ["WassersteinCase"]}, "env": {"NUMBA_NUM_THREADS": 4}},
+        {"name": "H-jit-misc-a", "layer": "H", "mode": "jit", "variant": "misca", "runs": 100000, "workers": 1, "budget_s": 2600,
+         "params": {"families": ROWWISE_MISC[:4]}, "env": {"NUMBA_NUM_THREADS": 4}},
+        {"name": "H-jit-misc-b", "layer": "H", "mode": "jit", "variant": "miscb", "runs": 100000, "workers": 1, "budget_s": 2600,
+         "params": {"families": ROWWISE_MISC[4:]}},
     ],
 }
 
@@ -106,6 +138,17 @@ RULES["C13"] = (
     "each, set of fired fault kinds)."
 )
 
+RULES["C12"] = (
+    "Each evaluation is one simulated history on one fitted estimator decided by one seed: a family and case are drawn, the "
+    "estimator is fitted once, then 4-15 operations from {transform(batch) with batch = single / subset / whole pool / permutation / "
+    "duplicates / concatenation of earlier batches, set_knob(memory_size | chunk sizes | numba thread count)}; every produced row is "
+    "compared with the memo of the same item from any earlier batching (exact for counts and codes, 1e-8 for floats, 1e-6 for the "
+    "batched Sinkhorn iteration whose shared stopping test is part of the documented algorithm); in interp mode the prange loops of "
+    "the transform path run under simulated workers. Non-trivial = at least two successful transform calls were cross-checked; "
+    "distinct = distinct interleaving digests of the simulated parallel loops when at least one loop was interleaved, else distinct "
+    "(family, operation list with item ids, parameters)."
+)
+
 COMPONENTS = {
     "C04": {
         "real": ["vectorizers.coo_utils (coo_append, coo_sum_duplicates, merge_sum_duplicates, merge_all_sum_duplicates, coo_increase_mem)",
@@ -128,6 +171,19 @@ COMPONENTS["C13"] = {
     "modes": "interp = NUMBA_DISABLE_JIT=1; jit = compiled kernels (cancellation can then only land on python-level lines)",
 }
 
+COMPONENTS["C12"] = {
+    "real": ["fit and transform of the 12 row-wise estimator families (Ngram, Skipgram, LZCompression, BytePairEncoding, Histogram, KDE, "
+             "Distribution, Wasserstein x {LOT_exact spmatrix/lil/generator, LOT_sinkhorn, HeuristicLinearAlgebra}, Sinkhorn, "
+             "ApproximateWasserstein, InformationWeight, RowDenoising, CountFeatureCompression, SlidingWindow, SequentialDifference)",
+             "block / chunk loops of the LOT and Sinkhorn transforms with memory_size and chunk sizes changed between calls"],
+    "stub": ["interp mode: numba.prange loops of chunked_pairwise_distance, right_marginal_error_batch, sinkhorn_transport_images and "
+             "bpe_encode_all are outlined (AST rewrite in /verif, validated bit-identical under the trivial schedule) and executed by "
+             "simulated worker threads under dsim.sched with instruction-level pre-emption (sys.monitoring)",
+             "jit mode: real numba threads (thread count is a knob; their interleaving is NOT controlled: evidence for block/chunk/batch "
+             "independence only)"],
+    "modes": "interp = NUMBA_DISABLE_JIT=1; jit = compiled",
+}
+
 ASSUMPTIONS = {
     "C04": [
         "sampled, not exhaustive: a clean batch is evidence, not proof",
@@ -145,8 +201,19 @@ ASSUMPTIONS["C13"] = [
     "a clean-up operation that the simulator itself made fail waives the leftover oracle for exactly that path",
 ]
 
+ASSUMPTIONS["C12"] = [
+    "sampled, not exhaustive",
+    "generator input: the adapter declares the stream length (generator_n_distributions) before each call, as the API requires",
+    "LZ item pools are biased to strings built from fitted phrases (any unseen phrase makes transform raise consistently per item: a C01 matter)",
+    "the compiled prange schedule is not owned by the simulator; schedule exploration proper is the interp-mode simulated loop",
+]
+
 # probes that must have fired at least once per tier, otherwise the run is a harness error
 REQUIRED_PROBES = {
+    "C12": {
+        "quick": ["row-compared", "knob-changed", "prange-interleaved", "batch-multiple-of-block", "batch-raised"],
+        "thorough": ["row-compared", "knob-changed", "prange-interleaved", "batch-multiple-of-block", "batch-raised"],
+    },
     "C13": {
         "quick": ["blockwise-fit", "memo-compared", "same-model-checked", "transform-after-faulted-transform", "cancel@line",
                   "reader:raise", "reader:short", "io:ENOSPC@mkdtemp", "io:ENOSPC@memmap-create", "io:EIO@memmap-flush",
